@@ -67,6 +67,58 @@ def _z(x):
   return x.z if isinstance(x, SymInt) else z3.IntVal(int(x))
 
 
+def _check_large(e, pattern, bufs, ns, calls, out, L2):
+  e.reach('serialized')
+  e.check('C16.two_serialisation_passes', len(calls) == 2)
+  # (a) what the serializer sees is the same in both passes except for the
+  # values of non-default offset/size scalars (FlatBuffers omits defaults:
+  # a scalar switching between 0 and non-0 changes the buffer length)
+  stable = []
+  for i, has in enumerate(pattern):
+    d1 = calls[0][i]
+    d2 = calls[1][i]
+    e.check('C16.pass.same_inline_data_in_both_passes', d1[0] is d2[0])
+    for f1, f2 in ((d1[1], d2[1]), (d1[2], d2[2])):
+      stable.append((_z(f1) == 0) == (_z(f2) == 0))
+  e.check('C16.pass.offset_size_defaultness_stable[empty buffer]',
+          z3.And(*stable) if stable else True)
+  # (b) under equal serialisation length, offsets are right
+  tot = _z(out.sym_len())
+  e.check('C16.final.total_aligned', tot % 16 == 0)
+  prev_end = None
+  for i, has in enumerate(pattern):
+    b = bufs[i]
+    if not has:
+      e.check('C16.final.none_buffer_untouched',
+              z3.And(_z(b.offset) == 0, _z(b.size) == 0, b.data is None))
+      e.check('C16.final.none_buffer_not_appended',
+              f'buf_{i}' not in out.labels())
+      continue
+    pos = out.position_of(f'buf_{i}')
+    if pos is None:
+      # kept inside the flatbuffer: legitimate only for an empty buffer,
+      # which must then be serialised exactly like the ordinary path does
+      e.check('C16.final.only_empty_buffers_stay_inline', _z(ns[i]) == 0)
+      e.check('C16.final.inline_buffer_untouched',
+              z3.And(_z(b.offset) == 0, _z(b.size) == 0,
+                     calls[1][i][0] is not None))
+      continue
+    e.check('C16.final.buffer_appended_once',
+            out.labels().count(f'buf_{i}') == 1)
+    e.check('C16.final.external_buffer_removed_from_flatbuffer',
+            calls[1][i][0] is None and b.data is None)
+    p, n = pos
+    e.check('C16.final.offset_selects_buffer', _z(b.offset) == _z(p))
+    e.check('C16.final.size_is_buffer_length', _z(b.size) == _z(ns[i]))
+    e.check('C16.final.offset_aligned', _z(b.offset) % 16 == 0)
+    e.check('C16.final.in_bounds', _z(b.offset) + _z(b.size) <= tot)
+    e.check('C16.final.after_flatbuffer', _z(b.offset) >= _z(L2))
+    if prev_end is not None:
+      e.check('C16.final.disjoint', _z(b.offset) >= prev_end)
+    prev_end = _z(b.offset) + _z(b.size)
+  e.check('C16.final.flatbuffer_first', out.labels()[:1] == ['fb2'])
+
+
 def h_large(pattern, fix=None):
   """pattern: tuple of bools, True = buffer has data.  fix: residues pinned
   by this job (work split; the jobs together cover all residues)."""
@@ -112,55 +164,90 @@ def h_large(pattern, fix=None):
       e.check('C16.constant_map.total_size',
               _z(total) == sum([_z(n) for n in ns.values()], z3.IntVal(0)))
       out = mm._serialize_large_model(model)
-    e.reach('serialized')
-    e.check('C16.two_serialisation_passes', len(calls) == 2)
-    # (a) what the serializer sees is the same in both passes except for the
-    # values of non-default offset/size scalars (FlatBuffers omits defaults:
-    # a scalar switching between 0 and non-0 changes the buffer length)
-    stable = []
+    _check_large(e, pattern, bufs, ns, calls, out, L2)
+  return h
+
+
+_HIST = {}
+
+
+def _history_setup():
+  """single_FC skeleton and two weight-only recipes (concrete)."""
+  if not _HIST:
+    from props import pipeline as P
+    _HIST['mb'] = P.model_bytes_of('single_FC', 'quick')
+    _HIST['A'] = [P.rule('.*', '*', 'WO')]
+    _HIST['B'] = [P.rule('.*', '*', 'WO4')]
+  return _HIST
+
+
+def h_large_history(pattern, fix=None):
+  """The large-model path as the public API reaches it on a USED Quantizer:
+  quantize(A) through the large path (real, concrete), load recipe B, then a
+  second quantize() whose serialisation step runs on symbolic buffers - the
+  ModelModifier (and whatever state it carries) is the one the real
+  Quantizer.quantize() uses for that second call."""
+  def h(e):
+    from ai_edge_quantizer import quantizer as quantizer_lib
+    from tensorflow.lite.tools import flatbuffer_utils as real_fu
+    hs = _history_setup()
+    L1 = SymInt.fresh('L1_q', 0) * 16 + SymInt.fresh('L1_r', 0, 15)
+    e.assume(_z(L1) >= 8)
+    L2 = L1
+    ns, bufs = {}, []
     for i, has in enumerate(pattern):
-      d1 = calls[0][i]
-      d2 = calls[1][i]
-      e.check('C16.pass.same_inline_data_in_both_passes', d1[0] is d2[0])
-      for f1, f2 in ((d1[1], d2[1]), (d1[2], d2[2])):
-        stable.append((_z(f1) == 0) == (_z(f2) == 0))
-    e.check('C16.pass.offset_size_defaultness_stable[empty buffer]',
-            z3.And(*stable) if stable else True)
-    # (b) under equal serialisation length, offsets are right
-    tot = _z(out.sym_len())
-    e.check('C16.final.total_aligned', tot % 16 == 0)
-    prev_end = None
-    for i, has in enumerate(pattern):
-      b = bufs[i]
-      if not has:
-        e.check('C16.final.none_buffer_untouched',
-                z3.And(_z(b.offset) == 0, _z(b.size) == 0, b.data is None))
-        e.check('C16.final.none_buffer_not_appended',
-                f'buf_{i}' not in out.labels())
-        continue
-      pos = out.position_of(f'buf_{i}')
-      if pos is None:
-        # kept inside the flatbuffer: legitimate only for an empty buffer,
-        # which must then be serialised exactly like the ordinary path does
-        e.check('C16.final.only_empty_buffers_stay_inline', _z(ns[i]) == 0)
-        e.check('C16.final.inline_buffer_untouched',
-                z3.And(_z(b.offset) == 0, _z(b.size) == 0,
-                       calls[1][i][0] is not None))
-        continue
-      e.check('C16.final.buffer_appended_once',
-              out.labels().count(f'buf_{i}') == 1)
-      e.check('C16.final.external_buffer_removed_from_flatbuffer',
-              calls[1][i][0] is None and b.data is None)
-      p, n = pos
-      e.check('C16.final.offset_selects_buffer', _z(b.offset) == _z(p))
-      e.check('C16.final.size_is_buffer_length', _z(b.size) == _z(ns[i]))
-      e.check('C16.final.offset_aligned', _z(b.offset) % 16 == 0)
-      e.check('C16.final.in_bounds', _z(b.offset) + _z(b.size) <= tot)
-      e.check('C16.final.after_flatbuffer', _z(b.offset) >= _z(L2))
-      if prev_end is not None:
-        e.check('C16.final.disjoint', _z(b.offset) >= prev_end)
-      prev_end = _z(b.offset) + _z(b.size)
-    e.check('C16.final.flatbuffer_first', out.labels()[:1] == ['fb2'])
+      if has:
+        ns[i] = (SymInt.fresh(f'n_{i}_q', 0) * 16
+                 + SymInt.fresh(f'n_{i}_r', 0, 15))
+        bufs.append(_Buf(SegBytes([(f'buf_{i}', ns[i])])))
+      else:
+        bufs.append(_Buf(None))
+    for name, val in (fix or {}).items():
+      e.assume(e.inputs[name] == val)
+    # at least one byte of constants, so that the lowered threshold (-1 is
+    # below every total) is not what decides the path
+    calls = []
+
+    def convert(m):
+      calls.append([(b.data, b.offset, b.size) for b in m.buffers])
+      return SegBytes([(f'fb{len(calls)}', L1 if len(calls) == 1 else L2)])
+
+    stub_fu = types.SimpleNamespace(
+        convert_object_to_bytearray=convert,
+        read_model_from_bytearray=real_fu.read_model_from_bytearray)
+    env = dict(os.environ)
+    orig = model_modifier.ModelModifier._process_constant_map
+    seen = {}
+
+    def pcm(self, quantized_model):
+      quantized_model.buffers = bufs
+      seen['total'] = orig(self, quantized_model)
+      return seen['total']
+    try:
+      os.environ['AI_EDGE_QUANTIZER_VERIF'] = '1'
+      os.environ['AI_EDGE_QUANTIZER_VERIF_LARGE_MODEL_THRESHOLD'] = '-1'
+      q = quantizer_lib.Quantizer(hs['mb'], copy.deepcopy(hs['A']))
+      q.quantize()
+      q.load_quantization_recipe(copy.deepcopy(hs['B']))
+      model_modifier.ModelModifier._process_constant_map = pcm
+      with patch.rebind('ai_edge_quantizer.model_modifier', 'len', symlen), \
+          patch.rebind('ai_edge_quantizer.model_modifier', 'bytearray',
+                       symbytearray), \
+          patch.rebind('ai_edge_quantizer.model_modifier', 'bytes', symbytes), \
+          patch.rebind('ai_edge_quantizer.model_modifier', 'flatbuffer_utils',
+                       stub_fu):
+        out = q.quantize().quantized_model
+    finally:
+      model_modifier.ModelModifier._process_constant_map = orig
+      os.environ.clear()
+      os.environ.update(env)
+    e.check('C16.constant_map.total_size',
+            _z(seen['total']) == sum([_z(n) for n in ns.values()],
+                                     z3.IntVal(0)))
+    e.check('C16.history.large_path_taken', isinstance(out, SegBytes))
+    if not isinstance(out, SegBytes):
+      return
+    _check_large(e, pattern, bufs, ns, calls, out, L2)
   return h
 
 
@@ -173,10 +260,14 @@ def _to_candidate(tag, v):
 def job_large(job):
   pattern = tuple(job.args['pattern'])
   en = Engine(solver_timeout_ms=20000, max_decisions=200)
-  en.explore(h_large(pattern, job.args.get('fix')))
-  tag = 'large/' + ''.join('1' if p else '0' for p in pattern)
+  hist = job.args.get('history')
+  en.explore((h_large_history if hist else h_large)(pattern,
+                                                     job.args.get('fix')))
+  tag = ('hist/' if hist else 'large/') + ''.join(
+      '1' if p else '0' for p in pattern)
   r = result_from_engines(job.name, [(tag, en)], _to_candidate)
-  r.samples = [f'buffers {pattern} (True=has data, symbolic length); '
+  r.samples = [('second quantize() of a used Quantizer: ' if hist else '') +
+               f'buffers {pattern} (True=has data, symbolic length); '
                f'{en.stats.paths} padding paths']
   return r
 
@@ -214,6 +305,31 @@ def compare_large_small(model_bytes, recipe=None, threshold=-1):
     os.environ.clear()
     os.environ.update(env)
   return diff_serialisations(bytes(small), bytes(large))
+
+
+def compare_history_large_small(model_bytes, recipe_a, recipe_b):
+  """Public API: one Quantizer, quantize(A) and then quantize(B) both through
+  the large-model path (hook) vs a fresh Quantizer(B) on the ordinary path."""
+  from ai_edge_quantizer import quantizer as quantizer_lib
+  env = dict(os.environ)
+  try:
+    os.environ.pop('AI_EDGE_QUANTIZER_VERIF', None)
+    small = quantizer_lib.Quantizer(
+        model_bytes, copy.deepcopy(recipe_b)).quantize().quantized_model
+    os.environ['AI_EDGE_QUANTIZER_VERIF'] = '1'
+    os.environ['AI_EDGE_QUANTIZER_VERIF_LARGE_MODEL_THRESHOLD'] = '-1'
+    q = quantizer_lib.Quantizer(model_bytes, copy.deepcopy(recipe_a))
+    q.quantize()
+    q.load_quantization_recipe(copy.deepcopy(recipe_b))
+    large = q.quantize().quantized_model
+    again = q.quantize().quantized_model
+  finally:
+    os.environ.clear()
+    os.environ.update(env)
+  pr = diff_serialisations(bytes(small), bytes(large))
+  pr += ['third call: ' + x for x in
+         diff_serialisations(bytes(small), bytes(again))]
+  return pr
 
 
 def diff_serialisations(small, large):
@@ -273,6 +389,23 @@ def job_concrete(job):
     with open(p, 'rb') as f:
       cases.append((name, f.read(), recipe))
   cands, inconc, n = [], [], 0
+  from props import pipeline as P
+  wo, wo4, drq = ([P.rule('.*', '*', m)] for m in ('WO', 'WO4', 'DRQ'))
+  for name, _ in job.args.get('fixtures', []):
+    with open(os.path.join('/repo/ai_edge_quantizer/tests/models', name),
+              'rb') as f:
+      mb = f.read()
+    for ra, rb, tag in ((wo, wo4, 'WO->WO4'), (drq, wo, 'DRQ->WO')):
+      n += 1
+      try:
+        probs = compare_history_large_small(mb, ra, rb)
+      except Exception as ex:  # pylint: disable=broad-except
+        inconc.append(f'{name} history {tag}: {type(ex).__name__}: {ex}')
+        continue
+      if probs:
+        cands.append(Candidate('C16.concrete.large_equals_small_on_used_quantizer',
+                               {'tag': 'concrete_history', 'model': name,
+                                'recipes': tag, 'problems': probs[:4]}))
   for what, mb, recipe in cases:
     n += 1
     try:
@@ -292,7 +425,8 @@ def job_concrete(job):
                             'the threshold hook: large form vs ordinary form'])
 
 
-REACH = {'large': ['serialized'], 'concrete': ['concrete']}
+REACH = {'large': ['serialized'], 'hist': ['serialized'],
+         'concrete': ['concrete']}
 
 
 def jobs(tier, seed):
@@ -311,6 +445,19 @@ def jobs(tier, seed):
                          'fix': dict(zip(pins, vals))}))
       else:
         js.append(Job(name, job_large, {'pattern': list(pattern)}))
+  # the same obligations on the second quantize() of a used Quantizer
+  hist_patterns = [(True,), (True, False), (False, True)]
+  for pattern in hist_patterns:
+    name = 'hist:' + ''.join('1' if p else '0' for p in pattern)
+    for r in range(16):
+      js.append(Job(f'{name}:shard{r}', job_large,
+                    {'pattern': list(pattern), 'history': True,
+                     'fix': {'L1_r': r}}))
+  if tier == 'thorough':
+    for vals in itertools.product(range(16), repeat=2):
+      js.append(Job('hist:11:shard' + '.'.join(map(str, vals)), job_large,
+                    {'pattern': [True, True], 'history': True,
+                     'fix': {'L1_r': vals[0], 'n_0_r': vals[1]}}))
   cases = [[8], [4, 12], [16, 4, 20], [4, None, 8], [0], [4, 0], [1],
            [1, 8], [3, 1, 5], [2, 17]]
   fixtures = [('single_fc_bias.tflite', None), ('conv_fc_mnist.tflite', None)]
@@ -329,6 +476,20 @@ def replay(c):
   d = c['data']
   if d.get('tag') == 'concrete':
     return True, 'concrete', f"{d['what']}: {d['problems']}"
+  if d.get('tag') == 'concrete_history' or d['tag'].startswith('hist/'):
+    # public API, real serializer, fixture models
+    from props import pipeline as P
+    wo, wo4 = [P.rule('.*', '*', 'WO')], [P.rule('.*', '*', 'WO4')]
+    for name in ('single_fc_bias.tflite', 'conv_fc_mnist.tflite'):
+      with open(os.path.join('/repo/ai_edge_quantizer/tests/models', name),
+                'rb') as f:
+        mb = f.read()
+      probs = compare_history_large_small(mb, wo, wo4)
+      if probs:
+        return True, 'large-model path on a used Quantizer', (
+            f'{name}: quantize(WO) then quantize(WO4) through the large-model '
+            f'path on one Quantizer: {probs[:3]}')
+    return False, 'history', 'public-API history reproduces no difference'
   pattern = [ch == '1' for ch in d['tag'].split('/')[1]]
   lens = []
   for i, has in enumerate(pattern):
